@@ -37,6 +37,14 @@ CLAIMS = {
          "TLA+ action properties; bundle replay fresh vs after-clear vs with_capacity; trace validation"),
  "C16": ("model_checking", "Round trip is the identity on the abstract state: at every reachable model state deserialize(serialize(arena)) == arena, projection / is_removed / reusable slots equal, and every enabled call applied to original and copy gives equal results and == arenas (one-step bisimulation => all continuations within the bound); round_trip events in recorded histories.", "4/C16",
          "TLA+ identity step; exhaustive bundle replay with serde_json round trip; trace validation"),
+ "C14": ("model_checking", "Printer.tla defines the rendering structurally (one guide token per ancestor level, TEE/ELL lead, pre-order blocks) and RenderingLaws restates C14's clauses; TLC computes the expected rendering for every reachable forest <=4 nodes (thorough <=5) x every live start node x 6 line-count assignments (1-3 lines, empty middle line) and checks the laws; the real Display/Debug printers in all four format modes are compared line by line. IndentWriter.tla (the writer's state machine) is checked to refine Printer.tla.", "4/C14",
+         "TLA+ rendering definition; TLC-generated expected renderings compared with the real printers"),
+ "C15": ("translation_validation", "TreeMacro.tla enumerates every literal shape (pre-order parent vectors) up to 6 expressions below the root (thorough 7), defines the tree it denotes and checks the macro's flatten/interpret algorithm against it; each shape x 4 root forms (value, NodeId with 0/1/2 existing children) with rotated leaf / trailing-comma spellings and side-effecting expressions is compiled against the repository's proc macro and run; children lists, evaluation log, node count and returned id are compared with TLC's expectation.", "4/C15",
+         "TLA+ enumeration of macro inputs + expected trees; generated programs compiled and compared"),
+ "C17": ("exploration", "Rebuild(features) is the identity in the specification: the same exhaustive bundle set is replayed by harness builds with 7 feature sets (quick; all 16 subsets thorough), each must conform to the one specification and the digests of all observations must be identical; par_iter() compared with iter() as multiset and by position.", "4/C17",
+         "one TLA+ spec, exhaustive bundle replay under every feature configuration, digest comparison"),
+ "C18": ("other", "Readers.tla: all interleavings of concurrent reader cursor machines over one shared, never-written forest give the sequential outputs (TLC). Binding: 16 real threads (thread::scope on one &Arena) and rayon par_iter on thousands of arenas, per-thread logs equal the single-threaded log. The type-level clause is decided by the compiler on an assertion crate (Send+Sync for every T: Send+Sync). 'No unsafe code / no interior mutability' are facts about the source text that the model can only assume: guarded by -F unsafe_code and a source scan, stated as NOT model-based.", "4/C18",
+         "TLA+ interleaving model of readers; multi-threaded observation logs; compiler-checked auto traits; source guards"),
 }
 PENDING = {}
 
